@@ -52,7 +52,7 @@ ASSUMPTIONS = [
 PAIRS = [('soap11', 'soap11'), ('soap12', 'soap12'), ('xml', 'xml'),
          ('json', 'json'), ('yaml', 'yaml'), ('msgpack', 'msgpack'),
          ('msgpackrpc', 'msgpackrpc'), ('httprpc', 'json'),
-         ('json', 'xml'), ('xml', 'json')]
+         ('json', 'xml'), ('xml', 'json'), ('httprpc', 'httprpc')]
 
 BLOCK_LENGTHS = [1, 2, 3, 7, 64, 8192]
 ML_MODES = ['zero', 'one', 'body-1', 'body', 'body+1', 'big']
@@ -61,10 +61,18 @@ READ_PLANS = ['full', 'short', 'eof_early', 'overlong', 'none', 'error']
 CONSUMERS = ['drain', 'abort', 'close_only', 'drain_no_close']
 
 
+MULTIPART = ['ok', 'no_cid', 'attach_first', 'bad_charset',
+             'nonascii_boundary', 'no_boundary', 'no_root', 'truncated',
+             'empty']
+# PEP 3333: PATH_INFO and QUERY_STRING may be omitted when empty
+ENV_MODES = ['full', 'full', 'full', 'omit_qs', 'mount_point']
+
+
 def _rclasses(rng, seed):
     """The request classes, one list; index cycles with the run index."""
     out = []
-    for m in ('prims', 'echo', 'inners', 'multi', 'noargs', 'nothing', 'sub'):
+    for m in ('prims', 'echo', 'inners', 'multi', 'noargs', 'nothing', 'sub',
+              'mtom'):
         out.append(['ok', m])
     for n in (0, 1, 3):
         out.append(['gen', n])
@@ -78,11 +86,19 @@ def _rclasses(rng, seed):
     for how in ('truncate', 'garbage', 'empty'):
         out.append(['malformed', how])
     out.append(['wsdl'])
+    out.append(['wsdl', 'badhost'])
     out.append(['badreturn'])
     for verb in ('GET', 'PUT', 'HEAD'):
         out.append(['verb', verb])
     for cs in ('latin-1', 'bogus-charset', 'utf-16'):
         out.append(['charset', cs])
+    for how in MULTIPART:
+        out.append(['multipart', how])
+    # a File result streamed from a handle (HttpRpc out only): size, and the
+    # index of the read() that fails with an I/O error (None: no failure)
+    for size, bad in ((0, None), (100, None), (20000, None), (20000, 1),
+                      (100, 0)):
+        out.append(['download', size, bad])
     return out
 
 
@@ -119,8 +135,61 @@ def make_case(verif_seed, i):
         'plan_kind': plan_kind,
         'plan_args': [rng.randint(0, 6), rng.randint(1, 5)],
         'consumer': [consumer, rng.randint(0, 3)],
+        'env_mode': rng.choice(ENV_MODES),
+        # user code parks k resources in ctx.files; close() of one of them
+        # fails (an I/O error at close time)
+        'files': [rng.randint(1, 3), rng.choice((-1, -1, 0, 1, 2))]
+                 if rng.random() < .2 else None,
     }
     return case
+
+
+class SimHandle(object):
+    """The file a user function hands over in File.Value(handle=...)."""
+
+    def __init__(self, size, bad_read, events, stamp):
+        self.data = bytes(bytearray((i * 7) % 251 for i in range(size)))
+        self.pos = 0
+        self.bad_read = bad_read
+        self.reads = 0
+        self.close_calls = 0
+        self.events, self.stamp = events, stamp
+        self.name = 'sim-handle'
+
+    def seek(self, pos, whence=0):
+        self.pos = pos
+
+    def tell(self):
+        return self.pos
+
+    def read(self, n=-1):
+        k = self.reads
+        self.reads += 1
+        if self.bad_read is not None and k == self.bad_read:
+            self.events.append((self.stamp(), 'handle_read_error'))
+            raise OSError('sim: read() of the response file failed')
+        if n is None or n < 0:
+            n = len(self.data) - self.pos
+        d = self.data[self.pos:self.pos + n]
+        self.pos += len(d)
+        return d
+
+    def close(self):
+        self.close_calls += 1
+        self.events.append((self.stamp(), 'handle_close'))
+
+
+class SimFile(object):
+    def __init__(self, idx, fail, events, stamp):
+        self.idx, self.fail = idx, fail
+        self.events, self.stamp = events, stamp
+        self.close_calls = 0
+
+    def close(self):
+        self.close_calls += 1
+        self.events.append((self.stamp(), 'file_close', self.idx))
+        if self.fail and self.close_calls == 1:
+            raise OSError('sim: close() of ctx.files[%d] failed' % self.idx)
 
 
 def _resolve(case, body_len):
@@ -169,23 +238,57 @@ def run_case(case):
     ws = Streams(case['seed'])['workload']
     uni = Universe(Streams(case['useed'])['universe'])
     in_prot, out_prot = case['in_prot'], case['out_prot']
-    req = build_request(uni, in_prot, case['rclass'], ws)
+    handles = []
+    services = None
+    if case['rclass'][0] == 'download':
+        if (in_prot, out_prot) == ('httprpc', 'httprpc'):
+            from spyne import File, Service, rpc as _rpc
+            from sim.universe import Request
+            stamp_box = []
+
+            def download(ctx):
+                uni.ctl.calls.append(('download', 'enter'))
+                h = SimHandle(case['rclass'][1], case['rclass'][2],
+                              stamp_box[1], stamp_box[0])
+                handles.append(h)
+                return File.Value(handle=h, type='application/octet-stream')
+            dl = type('DlSvc', (Service,),
+                      {'download': _rpc(_returns=File)(download)})
+            services = list(uni.services) + [dl]
+            req = Request('GET', '/download', '', None, b'',
+                                                      ('download', 'ok'))
+        else:
+            case = dict(case, rclass=['ok', 'noargs'])
+    if case['rclass'][0] != 'download':
+        req = build_request(uni, in_prot, case['rclass'], ws)
     body_len = len(req.body)
     ml, cl = _resolve(case, body_len)
     plan, trailing = _read_plan(case, body_len, case['block_length'])
 
     app = uni.make_app(make_protocol(in_prot, case['validator']),
-                                                   make_protocol(out_prot))
+                                 make_protocol(out_prot), services=services)
     wsgi = WsgiApplication(app, chunked=case['chunked'],
                  max_content_length=ml, block_length=case['block_length'])
     stamp = Stamp()
     events = []
+    if services is not None:
+        stamp_box[:] = [stamp, events]
     app.event_manager.add_listener('method_context_created',
                    lambda ctx: events.append((stamp(), 'ctx_created')))
     app.event_manager.add_listener('method_context_closed',
                    lambda ctx: events.append((stamp(), 'ctx_closed')))
     wsgi.event_manager.add_listener('wsgi_close',
                    lambda ctx: events.append((stamp(), 'wsgi_close')))
+    simfiles = []
+    if case.get('files'):
+        n, bad = case['files']
+
+        def _park(ctx):
+            for i in range(n):
+                f = SimFile(i, i == bad, events, stamp)
+                simfiles.append(f)
+                ctx.files.append(f)
+        app.event_manager.add_listener('method_call', _park)
     if case['rclass'][0] == 'wsdl' and case['plan_args'][0] % 2:
         # the documented use of the `wsdl` event: a listener that edits the
         # document about to be served (e.g. to publish a proxy URL)
@@ -195,15 +298,24 @@ def run_case(case):
                     b'<wsdl:definitions', b'<!-- served through sim.invalid '
                     b'-->\n<wsdl:definitions', 1)
         wsgi.event_manager.add_listener('wsdl', _edit_wsdl)
+    em = case.get('env_mode', 'full')
+    if em == 'omit_qs' and req.qs == '':
+        req.env = dict(req.env or {}, QUERY_STRING=None)
+    elif em == 'mount_point' and req.path == '/' and in_prot != 'httprpc':
+        # the application is mounted at /app and the request goes to the
+        # mount point itself: PATH_INFO is empty, so it may be left out
+        req.env = dict(req.env or {}, SCRIPT_NAME='/app', PATH_INFO=None)
+        if req.qs == '':
+            req.env['QUERY_STRING'] = None
     cons = case['consumer']
     consumer = (cons[0], cons[1]) if cons[0] == 'abort' else (cons[0],)
     o = call_wsgi(wsgi, req, read_plan=plan, content_length=cl,
                   consumer=consumer, trailing=trailing, stamp=stamp,
                   events=events)
-    return judge(case, uni, req, o, ml, cl)
+    return judge(case, uni, req, o, ml, cl, simfiles, handles)
 
 
-def judge(case, uni, req, o, ml, cl):
+def judge(case, uni, req, o, ml, cl, simfiles=(), handles=()):
     V = []
     rkind = case['rclass'][0]
     in_prot, out_prot = case['in_prot'], case['out_prot']
@@ -306,18 +418,13 @@ def judge(case, uni, req, o, ml, cl):
     if o.unbounded_reads:
         viol('I6-unbounded-read', '', 'read() without a size')
     # I5 -------------------------------------------------------------------
-    consumes_body = in_prot != 'httprpc' and not is_wsdl
-    if isinstance(cl, int) and cl > ml and consumes_body and o.returned \
+    if isinstance(cl, int) and cl > ml and not is_wsdl and o.returned \
                                                        and o.exhausted:
         if uni.ctl.n_calls() != 0:
             viol('I5-user-code-ran', '', 'user code ran for a request whose '
                  'declared length %d exceeds max_content_length %d' % (cl, ml))
         code = _fault_code(out_prot, o)
-        if rkind == 'verb' and o.bytes_read == 0 and \
-                                           canon.is_client_code(code):
-            # refused even earlier (wrong HTTP verb), without reading a byte
-            pass
-        elif code != 'Client.RequestTooLong':
+        if code != 'Client.RequestTooLong':
             viol('I5-not-refused', str(code), 'declared length %d > limit %d '
                  'answered with %r / fault code %r' % (cl, ml, o.status, code))
         elif fam != 'soap' and not (o.status or '').startswith('413'):
@@ -351,6 +458,26 @@ def judge(case, uni, req, o, ml, cl):
                 if t_closed < t_close:
                     viol('I7-closed-before-abort', '', 'context closed before '
                          'the consumer stopped iterating (abort)')
+        # the context's resources are released with it, every one of them,
+        # whether or not close() of another one failed
+        for f in simfiles:
+            if f.close_calls != 1:
+                viol('I7-file-close-count', str(f.close_calls), 'ctx.files[%d]'
+                     ' of %d closed %d times (close() of #%d fails)' % (
+                      f.idx, len(simfiles), f.close_calls, case['files'][1]))
+                break
+        if simfiles and case['files'][1] in range(len(simfiles)):
+            o.fired['file_close_error'] = 1
+        # ... and so is the file the response body is streamed from, however
+        # few chunks the gateway has pulled before calling close()
+        for h in handles:
+            if h.close_calls < 1:
+                viol('I7-response-file-open', str(len(o.chunks)), 'the file '
+                     'the response was streamed from is still open after the '
+                     'request is over (%d chunks pulled, consumer %s)' % (
+                                                      len(o.chunks), cons))
+            if h.bad_read is not None and h.reads > h.bad_read:
+                o.fired['response_file_read_error'] = 1
     return _result(case, o, V)
 
 
